@@ -53,7 +53,7 @@ static int outfd = 1;
 struct Shared {
   volatile int active; int maxprocs;
   long paths_ok, paths_fail, paths_pruned, paths_abort, paths_cut, paths_crash;
-  long solver_calls, forks, unknowns, by_norm, asserts, q_sat, q_unsat, maxdepth, fresh_solved, div0_pruned;
+  long solver_calls, forks, unknowns, by_norm, asserts, q_sat, q_unsat, maxdepth, fresh_solved, div0_pruned, formatted_sym;
   double solver_s; double deadline;   // absolute seconds (steady clock) after which paths are cut
 };
 static Shared* sh;
@@ -741,6 +741,15 @@ long long __sym_fptoi(double a, int isSigned, int bitsw) {
   if (!isSigned && k < 0) path_exit(3, "negative symbolic value converted to unsigned (UB)");
   return k;
 }
+// a double handed to a function outside the instrumented code. Text formatting (iostream / printf family) of a symbolic value is counted and lets the
+// value through (it prints as "nan": messages and logs are not the subject; control flow that depends on such text is outside every claim and the count is
+// reported in the evidence); any other external function receiving a symbolic value ends the path as unsupported.
+double __sym_ext_arg(double a, const char* callee) {
+  if (!is_sym(a)) return a;
+  if (strstr(callee, "_M_insertI") || strstr(callee, "printf") || strstr(callee, "_ZNSolsE")) { __sync_fetch_and_add(&sh->formatted_sym, 1); return a; }
+  static std::string m; m = std::string("a symbolic value reaches the external function '") + callee + "', which has no model"; path_exit(3, m.c_str());
+  return a;
+}
 double __sym_concrete(double a, const char* why) { if (is_sym(a)) path_exit(3, why); return a; }
 
 typedef double (*un_t)(double);
@@ -972,7 +981,7 @@ int main(int argc, char** argv) {
   int st; waitpid(pid, &st, 0);
   double wall = now_s() - t0;
   if (!WIFEXITED(st) || WEXITSTATUS(st) != 0) note_crash(st);
-  printf("SUMMARY {\"mode\":\"%s\",\"paths_ok\":%ld,\"fail\":%ld,\"pruned\":%ld,\"abort\":%ld,\"cut\":%ld,\"crash\":%ld,\"forks\":%ld,\"solver_calls\":%ld,\"q_sat\":%ld,\"q_unsat\":%ld,\"by_norm\":%ld,\"asserts\":%ld,\"solver_s\":%.3f,\"unknown\":%ld,\"fresh_solved\":%ld,\"maxdepth\":%ld,\"div0_pruned\":%ld,\"wall_s\":%.3f}\n", mode == REAL ? "real" : "fp",
-         sh->paths_ok, sh->paths_fail, sh->paths_pruned, sh->paths_abort, sh->paths_cut, sh->paths_crash, sh->forks, sh->solver_calls, sh->q_sat, sh->q_unsat, sh->by_norm, sh->asserts, sh->solver_s, sh->unknowns, sh->fresh_solved, sh->maxdepth, sh->div0_pruned, wall);
+  printf("SUMMARY {\"mode\":\"%s\",\"paths_ok\":%ld,\"fail\":%ld,\"pruned\":%ld,\"abort\":%ld,\"cut\":%ld,\"crash\":%ld,\"forks\":%ld,\"solver_calls\":%ld,\"q_sat\":%ld,\"q_unsat\":%ld,\"by_norm\":%ld,\"asserts\":%ld,\"solver_s\":%.3f,\"unknown\":%ld,\"fresh_solved\":%ld,\"maxdepth\":%ld,\"div0_pruned\":%ld,\"formatted_symbolic\":%ld,\"wall_s\":%.3f}\n", mode == REAL ? "real" : "fp",
+         sh->paths_ok, sh->paths_fail, sh->paths_pruned, sh->paths_abort, sh->paths_cut, sh->paths_crash, sh->forks, sh->solver_calls, sh->q_sat, sh->q_unsat, sh->by_norm, sh->asserts, sh->solver_s, sh->unknowns, sh->fresh_solved, sh->maxdepth, sh->div0_pruned, sh->formatted_sym, wall);
   return 0;
 }
